@@ -7,6 +7,7 @@
 #include <string.h>
 
 #include <ufw/byte-buffer.h>
+#include <ufw/endpoints.h>
 
 #include "driver.h"
 
@@ -92,6 +93,40 @@ void adapter_exec(Ev *ev)
         memset(out, 0x55, outn ? outn : 1);
         rc = byte_buffer_consume_at_most(&bb, out, outn);
         outn = rc < 0 ? 0 : (size_t)rc;
+    } else if (ev_is(ev, "sinkput")) {
+        size_t n = (size_t)ev->a[0];
+        unsigned char *src = n ? xblock(n) : xblock0();
+        for (size_t i = 0; i < n; i++) src[i] = (unsigned char)ev->a[1 + i];
+        Sink k;
+        sink_to_buffer(&k, &bb);
+        rc = sink_put_chunk(&k, src, n);
+        if (rc < 0 && rc != -22) rc = -1;
+        if (n) xfree(src); else xfree0(src);
+        {
+            int fr = 0;
+            if (rc < 0) {
+                if (memcmp(&before, &bb, sizeof bb) != 0) fr = 1;
+                if (snap && block && memcmp(snap, block, blocksize) != 0) fr = 1;
+            }
+            project(ev, rc, fr);
+            free(snap);
+            return;
+        }
+    } else if (ev_is(ev, "srcget") || ev_is(ev, "srcgetam")) {
+        outn = (size_t)ev->a[0];
+        out = outn ? xblock(outn) : xblock0();
+        if (outn) memset(out, 0x55, outn);
+        Source s;
+        source_from_buffer(&s, &bb);
+        rc = ev_is(ev, "srcget") ? source_get_chunk(&s, out, outn) : source_get_chunk_atmost(&s, out, outn);
+        if (rc < 0 && rc != -22) rc = -1;
+        size_t got = rc < 0 ? 0 : (size_t)rc;
+        project(ev, rc, 0);
+        obs(ev, -7);
+        for (size_t i = 0; i < got; i++) obs(ev, out[i]);
+        if (outn) xfree(out); else xfree0(out);
+        free(snap);
+        return;
     } else if (ev_is(ev, "rewind")) {
         rc = byte_buffer_rewind(&bb);
     } else if (ev_is(ev, "clear")) {
